@@ -151,6 +151,38 @@ def run(pid, tier):
             oracle_fail.append((s, "the good template next to a rejected one was not compiled", None)); continue
         if "model" in run and run["model"].get("out") not in (None, out):
             disagree.append((s, "OK " + out.hex(), "OK " + run["model"]["out"].hex()))
+    # ... and all of them in ONE directory, between good templates: every rejected file gets the diagnostic it gets on its own (whatever the
+    # walk met before it), every good one is compiled
+    def warn_blocks(out):
+        blocks = {}; cur = None
+        for ln in out.split(b"\n"):
+            m = re.match(rb'cargo:warning=Template parse error in "(.*)":$', ln)
+            if m: cur = m.group(1).rsplit(b"/", 1)[-1]; blocks[cur] = []
+            elif cur is not None and ln.startswith(b"cargo:warning="): blocks[cur].append(ln)
+            elif ln.startswith(b"cargo:"): cur = None
+        return blocks
+    singles = [warn_blocks(([x for x in r["runs"] if x["kind"] == "R"] or [{"out": b""}])[0]["out"] or b"").get(b"bad.rs.html") for r in build_lib.run_scenarios(fscen)] if pick else []
+    for rep in range(2 if tier == "quick" else 6):
+        names = rng.sample([a + b_ for a in "abcdkmqxyzABZ_" for b_ in ["", "0", "7", "_x", "zz"]], 2 * len(pick) + 4)
+        rn, gn = names[:len(pick)], names[len(pick):]
+        mixed = [('W', 't/%s.rs.html' % n_, s) for n_, (s, _) in zip(rn, pick)] + [('W', 't/%s.rs.html' % n_, '@()\nG%d' % k) for k, n_ in enumerate(gn)]
+        rng.shuffle(mixed)
+        r = build_lib.run_scenarios([mixed + [('R', [('c', 't')])]])[0]
+        run = [x for x in r["runs"] if x["kind"] == "R"][0]
+        chk.count(("dir " + build_lib.scenario_line(mixed)[:2000]).encode(), True)
+        bl = warn_blocks(run["out"] or b""); files = build_lib.snap_files(run["after"] or {})
+        key = build_lib.scenario_line(mixed + [('R', [('c', 't')])]).encode()
+        if run["status"] != "ok":
+            oracle_fail.append((key, "compile_templates on a directory holding rejected templates between good ones did not succeed (%s)" % run["status"], None)); continue
+        for n_, (s, _), alone in zip(rn, pick, singles):
+            got = bl.get(("%s.rs.html" % n_).encode())
+            if alone is not None and got != alone:
+                oracle_fail.append((key, "the rejected template %s.rs.html gets another diagnostic among other templates of its directory than on its own" % n_,
+                                    dict(source=s.decode("latin1"), among_others=[x.decode("utf8", "replace") for x in (got or [])][:12], alone=[x.decode("utf8", "replace") for x in alone][:12]))); break
+        else:
+            for n_ in gn:
+                if ("%s.rs.html" % n_).encode() in bl or ("templates/template_%s_html.rs" % n_).encode() not in files:
+                    oracle_fail.append((key, "the good template %s.rs.html in a directory that also holds rejected ones is %s" % (n_, "reported as broken" if ("%s.rs.html" % n_).encode() in bl else "not compiled"), None)); break
     for s in cases[5:8] + cases[-3:]: chk.sample(dict(input=s[:200].decode("latin1")))
     chk.notes["outcome_histogram"] = hist; chk.notes["size_histogram"] = sizes
     chk.notes["disagreements_model_vs_impl"] = len(disagree); chk.notes["oracle_failures"] = len(oracle_fail)
